@@ -247,7 +247,12 @@ class CommandLineJob(Job):
             # Get from pidpath file
             from experimaestro.connectors import Process
 
-            pinfo = json.loads(self.pidpath.read_text())
+            try:
+                pinfo = json.loads(self.pidpath.read_text())
+            except ValueError:
+                # The scheduler that launched the process died before the
+                # PID file was written: no information on the process
+                return None
             p = Process.fromDefinition(self.launcher.connector, pinfo)
             if p is None:
                 return None
